@@ -367,7 +367,7 @@ func checkC06(c *Check) {
 		calls := false
 		ast.Inspect(fi.Decl.Body, func(n ast.Node) bool {
 			if call, ok := n.(*ast.CallExpr); ok {
-				if fn := Callee(cp.TypesInfo, call); fn != nil && fn.Name() == "runtime_error" {
+				if fn := Callee(cp.TypesInfo, call); fn != nil && nameIs(fn, "runtime_error") {
 					calls = true
 				}
 			}
@@ -378,7 +378,7 @@ func checkC06(c *Check) {
 		for _, st := range fi.Decl.Body.List {
 			if es, ok := st.(*ast.ExprStmt); ok {
 				if call, ok := es.X.(*ast.CallExpr); ok {
-					if fn := Callee(cp.TypesInfo, call); fn != nil && fn.Name() == "runtime_error" {
+					if fn := Callee(cp.TypesInfo, call); fn != nil && nameIs(fn, "runtime_error") {
 						top = true
 					}
 				}
@@ -395,7 +395,7 @@ func checkC06(c *Check) {
 		un := false
 		ast.Inspect(re.Decl.Body, func(n ast.Node) bool {
 			if call, ok := n.(*ast.CallExpr); ok {
-				if fn := Callee(cp.TypesInfo, call); fn != nil && fn.Name() == "NewUnreachable" {
+				if fn := Callee(cp.TypesInfo, call); fn != nil && nameIs(fn, "NewUnreachable") {
 					un = true
 				}
 			}
